@@ -107,3 +107,29 @@ Proof.
   - intros A c. rewrite Hin. exact (C07_tallies_uncrawled d rs h H1 H2 out auto A c).
 Qed.
 Print Assumptions C07_source_network.
+
+(* ---- the slow variant, translated (GenTraphN2.v: Traph.get_webentities_links_slow, which winds every target up to its
+   webentity through a RAM cache instead of carrying the webentity down the traversal).  For EVERY history and both switches the
+   translated request answers, changes no byte, and its link entries are exactly those of the fast translated request above, in
+   the direction asked (C07_network_slow). *)
+From Traph Require GenTraphN2 GenTraphN2Facts.
+Import GenTraphN2.
+Theorem C07_source_network_slow : forall d rs h, wf_rules rs -> Forall wf_op h ->
+  let s := run d rs h in let a := srun d rs h in
+  forall sg sgl out auto,
+    trep (TraceDefs.files_of s) sg -> lrep (stubs s) sgl -> fits (nb s * bsz) -> fits (saddr (length (stubs s))) ->
+    exists sg' g, py_traph_get_webentities_links_slow sg sgl out auto = Some (sg', g) /\ pm_array sg' = pm_array sg /\
+      (forall A B n, In (A, 0, B, n) (flat g) <->
+                     In (if out then (A, B, n) else (B, A, n)) (s_network auto a)).
+Proof.
+  intros d rs h H1 H2 s a sg sgl out auto Hrep Hl Hf1 Hf2.
+  destruct (GenTraphN2Facts.py_traph_get_webentities_links_slow_spec d rs h H1 H2 sg sgl out auto Hrep Hl Hf1 Hf2) as (sg' & g & E & _ & Harr & Hp).
+  fold s in Hp. exists sg', g. split; [exact E|]. split; [exact Harr|].
+  intros A B n.
+  assert (Hin : In (A, 0, B, n) (flat g) <-> In (A, 0, B, n) (webentities_links_slow out auto s)).
+  { split; intro Hi; [exact (Permutation.Permutation_in _ Hp Hi)|exact (Permutation.Permutation_in _ (Permutation.Permutation_sym Hp) Hi)]. }
+  rewrite Hin. unfold s, a. rewrite (C07_network_slow d rs h H1 H2 out auto A B n). destruct out.
+  - exact (C07_network_out d rs h H1 H2 auto A B n).
+  - exact (C07_network_in d rs h H1 H2 auto A B n).
+Qed.
+Print Assumptions C07_source_network_slow.
